@@ -254,8 +254,14 @@ func verifUpdated() {
 	}
 	t.AddRowItems(m, "q")
 	t.AddRowItems("r")
+	sepLater := false
 	if vfChoice("render-first", 2) == 1 {
 		t.Render()
+		// a rule added after that render (and nothing else) shows up in the next one
+		if vfChoice("separator-after-render", 2) == 1 {
+			t.AddSeparator()
+			sepLater = true
+		}
 	}
 	after := texts[vfChoice("after", 9)]
 	m.s = after
@@ -277,6 +283,9 @@ func verifUpdated() {
 		hdr = nil
 	}
 	rows := []vfRowSpec{{cells: []vfCellSpec{one(after), one("q")}}, {cells: []vfCellSpec{one("r")}}}
+	if sepLater {
+		rows = append(rows, vfRowSpec{sep: true})
+	}
 	want := vfRefRender(d, d == decoration.NoBox(), hmode != 0, hdr, rows, 2, make([]int, 2))
 	vfAssert(out == want, "layout-as-documented")
 	vfRectangle(out, 2, vfColWidths(hdr, rows, 2), d == decoration.NoBox())
